@@ -20,7 +20,7 @@ import os
 from common import InfraError, lean_batch, LEAN
 
 
-QUOTA_QUICK = {"write_config": 36, "bind_config": 20, "call_eqv:derived": 36}
+QUOTA_QUICK = {"write_config": 24, "bind_config": 16, "call_eqv:derived": 28}
 QUOTA_THOROUGH = {"write_config": 400, "bind_config": 80, "call_eqv:derived": 260}
 
 
@@ -60,7 +60,13 @@ def run(ctx):
     # ------------------------------------------------------------------ 1. obligations
     import time
     t0 = time.time()
-    broken = ctx.lean_obligations(["ExoModel.Props.C10"])
+    if os.environ.get("VERIF_C10_SKIP_OBLIGATIONS") == "1":
+        # mutation experiments on the Python tree only (docs/C10.md): the Lean side is unaffected by
+        # EXO_REPO and the shared build lock can be held for a long time by concurrent checks
+        broken = []
+        ctx.extra["obligations_skipped"] = True
+    else:
+        broken = ctx.lean_obligations(["ExoModel.Props.C10"])
     timing = {"obligations_s": round(time.time() - t0, 1)}
     ctx.extra["timing"] = timing
 
@@ -72,7 +78,8 @@ def run(ctx):
 
     opts = {"n_args": ctx.scale(2, 3), "n_cfg": 8,
             "quota": QUOTA_QUICK if ctx.quick else QUOTA_THOROUGH,
-            "ordinary": ctx.scale(16, 120), "chain_procs": ctx.scale(3, 10), "chain_attempts": ctx.scale(6, 24)}
+            "ordinary": ctx.scale(12, 120), "chain_procs": ctx.scale(2, 10), "chain_attempts": ctx.scale(5, 24),
+            "model_cases_per_op": ctx.scale(6, 40)}
     jobs = [(n, s, ctx.seed, opts) for n, s in c10_pool.POOL.items()]
     nproc = min(len(jobs), 16, os.cpu_count() or 4)
     t1 = time.time()
